@@ -197,6 +197,17 @@ fn replay(c: &Value) -> Option<(String, String)> {
             let s = c["s"].as_str()?;
             check_string(s).map(|(k, w)| (format!("{k} s={s:?}"), w))
         }
+        "stream-history" => {
+            let bytes: Vec<u8> = serde_json::from_value(c["model"].clone()).ok()?;
+            let ws = c["wsconst"].as_str()?;
+            let name = c["name"].as_str()?;
+            let first = c["first"].as_str()?;
+            let text = c["text"].as_str()?;
+            let mut tk = VaporettoTokenizer::new(Model::read_slice(&bytes).ok()?.0, ws).ok()?;
+            let pred = Predictor::new(Model::read_slice(&bytes).ok()?.0, false).ok()?;
+            let _ = stream(&mut tk, first);
+            check_stream(&mut tk, &pred, &filters_for(ws), text).map(|(k, w)| (format!("{k} model={name} wsconst={ws:?} after={first:?} text={text:?}"), w))
+        }
         _ => {
             let bytes: Vec<u8> = serde_json::from_value(c["model"].clone()).ok()?;
             let ws = c["wsconst"].as_str()?;
@@ -278,7 +289,7 @@ fn main() {
     jobs.par_iter().for_each(|(mi, ws)| {
         let (name, bytes) = &ms[*mi];
         let mk = || Model::read_slice(bytes).unwrap_or_else(|e| machinery_error(&format!("{name}: {e}"))).0;
-        let mut tk = match guard(|| VaporettoTokenizer::new(mk(), ws)) {
+        let tk0 = match guard(|| VaporettoTokenizer::new(mk(), ws)) {
             Ok(Ok(t)) => t,
             Ok(Err(e)) => machinery_error(&format!("VaporettoTokenizer::new({name}, {ws:?}): {e}")),
             Err(p) => machinery_error(&format!("VaporettoTokenizer::new panicked: {p}")),
@@ -292,6 +303,8 @@ fn main() {
             if text.chars().count() >= 2 {
                 chk.nontrivial(1);
             }
+            // a pristine clone per text (replayable); tokenizer reuse is the business of the history family
+            let mut tk = tk0.clone();
             if let Some((k, what)) = check_stream(&mut tk, &pred, &filters, text) {
                 // class-level signature: NUL-bearing texts are one class
                 let class = if text.contains('\0') { "text-with-NUL".to_string() } else { format!("text={text:?}") };
@@ -299,13 +312,44 @@ fn main() {
             }
         }
     });
+    // histories on ONE tokenizer: every ordered pair of texts over half-width / full-width spellings of the
+    // same characters (equal after normalisation, different byte lengths), the second text checked in full
+    // right after the first was streamed (a tokenizer is documented to be reusable)
+    {
+        let hs: Vec<String> = gen::strings(&['a', 'ａ', '1', '１', 'あ'], 0, tier.pick(3, 4)).iter().map(|t| gen::s(t)).collect();
+        chk.set("history_texts", json!(hs.len()));
+        let hjobs: Vec<(usize, &str)> = ms.iter().enumerate().flat_map(|(i, _)| ["", "D", "RD"].into_iter().map(move |w| (i, w))).collect();
+        hjobs.par_iter().for_each(|(mi, ws)| {
+            let (name, bytes) = &ms[*mi];
+            let mk = || Model::read_slice(bytes).unwrap_or_else(|e| machinery_error(&format!("{name}: {e}"))).0;
+            // every history starts from a pristine clone of a tokenizer that has never streamed anything
+            let tk0 = VaporettoTokenizer::new(mk(), ws).unwrap_or_else(|e| machinery_error(&e.to_string()));
+            let pred = Predictor::new(mk(), false).unwrap_or_else(|e| machinery_error(&e.to_string()));
+            let filters = filters_for(ws);
+            for (i, first) in hs.iter().enumerate() {
+                for (j, text) in hs.iter().enumerate() {
+                    // thorough: all pairs; quick: all pairs of texts up to 2 characters, a third of the rest
+                    if tier == Tier::Quick && (first.chars().count() > 2 || text.chars().count() > 2) && (i + j) % 3 != 0 {
+                        continue;
+                    }
+                    chk.eval(1);
+                    chk.nontrivial(1);
+                    let mut tk = tk0.clone();
+                    let _ = stream(&mut tk, first);
+                    if let Some((k, what)) = check_stream(&mut tk, &pred, &filters, text) {
+                        chk.violation(format!("{k} model={name} wsconst={ws:?} after={first:?} text={text:?}"), format!("on a tokenizer that had just streamed {first:?}: {what}"), json!({"kind": "stream-history", "name": name, "model": bytes, "wsconst": ws, "first": first, "text": text}));
+                    }
+                }
+            }
+        });
+    }
     chk.sample(json!({"kind": "stream", "model": "tantivy-test-model", "wsconst": "DG", "text": "a1\r\n👨"}));
     chk.sample(json!({"kind": "char", "c": "U+FF0D", "expected": "ー"}));
     chk.assume("golden table: a copy of the 96 KyTea mappings taken from the pinned commit (harness/vp-tantivy/src/golden.rs)");
     chk.assume("for texts the core pipeline rejects (NUL) only the structural laws (tiling, substrings, positions, no panic) are required");
     let replay_fn = |c: &Value| replay(c);
     chk.finish(
-        "normaliser: all 1 112 064 Unicode scalar values (one character out, golden table or identity, idempotent) and all strings up to the bound over 8 table + 4 non-table characters; token stream: 4 models x texts up to the bound over {a,1,A,あ,亜,-,CR,LF,ZWJ,👨,𠀋,NUL} and the empty text x wsconst strings over {D,R,H,T,K,O,G} (all texts for short wsconst strings, a rotating 1/7 resp. 1/5 of the texts for the longest); tokens must tile the original text on character boundaries with original substrings and consecutive positions, and break exactly where normalise+predict+line-break filter+configured filters break; non-trivial = table character / text of >= 2 characters; distinct by construction",
+        "normaliser: all 1 112 064 Unicode scalar values (one character out, golden table or identity, idempotent) and all strings up to the bound over 8 table + 4 non-table characters; token stream: 4 models x texts up to the bound over {a,1,A,あ,亜,-,CR,LF,ZWJ,👨,𠀋,NUL} and the empty text x wsconst strings over {D,R,H,T,K,O,G} (all texts for short wsconst strings, a rotating 1/7 resp. 1/5 of the texts for the longest); tokens must tile the original text on character boundaries with original substrings and consecutive positions, and break exactly where normalise+predict+line-break filter+configured filters break; consumers rewriting token.text see the same tokens; every ordered pair of texts over half-/full-width spellings streamed back to back on one tokenizer; non-trivial = table character / text of >= 2 characters; distinct by construction",
         true,
         &replay_fn,
     )
